@@ -109,6 +109,13 @@ func (s *State) ensureTransform(t *rapid.T, kind, name, label string) {
 		o.Top = []string{pick(t, tsetDefs, label+"def")}
 	} else {
 		o.mode("").Lines = []string{pick(t, propEnc, label+"enc"), pick(t, propInt, label+"int")}
+		// a proposal may also consist of one of the two lines only
+		switch rapid.IntRange(0, 5).Draw(t, label+"propLines") {
+		case 0:
+			o.mode("").Lines = o.mode("").Lines[:1]
+		case 1:
+			o.mode("").Lines = o.mode("").Lines[1:]
+		}
 	}
 }
 
@@ -556,12 +563,26 @@ func putLine(kind string, ms *modeSpec, md *vmode, line string) {
 func (s *State) mutateVPN(t *rapid.T, o GenOpts, label string) string {
 	g := s.Gen
 	cmaps := g.names(kCMap)
-	op := rapid.IntRange(0, 24).Draw(t, label+"vop")
+	op := rapid.IntRange(0, 26).Draw(t, label+"vop")
 	switch op {
 	case 21:
 		op = 19
 	case 22, 23, 24:
 		op = 20
+	case 25, 26:
+		// the device's proposal has a line more than the target's
+		for _, n := range g.names(kProp) {
+			md := g.Objs[kProp][n].mode("")
+			if len(md.Lines) == 1 {
+				if strings.Contains(md.Lines[0], " encryption ") {
+					md.Lines = append(md.Lines, pick(t, propInt, label+"propAddInt"))
+				} else {
+					md.Lines = append([]string{pick(t, propEnc, label+"propAddEnc")}, md.Lines...)
+				}
+				return "vpn:proposalLineAdded"
+			}
+		}
+		return "vpn:noop"
 	}
 	switch op {
 	case 0: // peer changed
